@@ -50,7 +50,10 @@ func (c *zzConn) Read(b []byte) (int, error) {
 	c.pos += n
 	return n, nil
 }
-func (c *zzConn) Write(b []byte) (int, error)        { c.written = append(c.written, b...); return len(b), nil }
+func (c *zzConn) Write(b []byte) (int, error) {
+	c.written = append(c.written, b...)
+	return len(b), nil
+}
 func (c *zzConn) Close() error                       { c.closed = true; return nil }
 func (c *zzConn) LocalAddr() net.Addr                { return c.local }
 func (c *zzConn) RemoteAddr() net.Addr               { return c.remote }
